@@ -107,6 +107,13 @@ Lemma refute_by_key : forall t H d k,
   ~ (coef (sd_denote t d) k == coef (ham_denote t H) k)%Q -> ~ peq (sd_denote t d) (ham_denote t H).
 Proof. intros t H d k Hk Hp. apply Hk. apply Hp. Qed.
 
+(* the refuter is sound: it only answers true with a key on which the two sums differ *)
+Theorem sd_refute_sound : forall t H d, sd_refute t H d = true -> ~ peq (sd_denote t d) (ham_denote t H).
+Proof.
+  intros t H d E. unfold sd_refute in E. destruct (sd_diff t H d) as [k|]; [|discriminate].
+  apply refute_by_key with (k := k). intro Hq. apply Qeq_eq_bool in Hq. rewrite Hq in E. discriminate.
+Qed.
+
 (* ====================================================================================== *)
 (* 2. list-wise equality up to == on the coefficients                                     *)
 (* ====================================================================================== *)
@@ -581,3 +588,75 @@ Qed.
 (* the uncompressed construction has one vertex per term on every edge *)
 Theorem base_bonds : forall t H c, NoDup (ids t) -> In c (tl (ids t)) -> nverts (sd_base t H) c = length H.
 Proof. intros t H c ND Hc. unfold sd_base. rewrite (base_from_bonds t c ND Hc). reflexivity. Qed.
+
+(* ====================================================================================== *)
+(* 9. the denotation as an explicit sum over consistent selections                          *)
+(* ====================================================================================== *)
+Lemma pmul_unfold : forall p q, pmul p q = flat_map (fun a => map (mmul2 a) q) p.
+Proof. reflexivity. Qed.
+
+Lemma flat_map_map : forall {A B C} (g : A -> B) (f : B -> list C) l,
+  flat_map f (map g l) = flat_map (fun a => f (g a)) l.
+Proof. intros. induction l; simpl; auto. rewrite IHl. reflexivity. Qed.
+
+Lemma prodc_selc : forall (f : rtree -> oid -> poly) (g : rtree -> oid -> list stree) cs vs,
+  (forall c x, In c cs -> f c x = map wt (g c x)) -> prodc f cs vs = map wts (selc g cs vs).
+Proof.
+  intros f g. induction cs as [|c cs IH]; intros vs H; destruct vs as [|x vs]; cbn [prodc selc map]; auto.
+  rewrite (H c x (or_introl eq_refl)). rewrite IH by (intros; apply H; right; assumption).
+  rewrite pmul_unfold, flat_map_map, map_flat_map.
+  apply flat_map_ext_in. intros a _. rewrite !map_map. reflexivity.
+Qed.
+
+(* val is the list of the weights of the consistent selections, selection by selection *)
+Theorem val_selections : forall t s pv, val s t pv = map wt (sels s t pv).
+Proof.
+  induction t as [v cs IH] using rtree_ind2. intros s pv. cbn [val sels]. rewrite map_flat_map.
+  apply flat_map_ext_in. intros h _.
+  destruct (Nat.eqb (hnode h) v); auto. destruct (child_verts pv h) as [vs|]; auto.
+  rewrite (prodc_selc _ (fun c x => sels s c (Some x))).
+  2:{ intros c x Hc. rewrite Forall_forall in IH. apply IH. exact Hc. }
+  unfold he_term. rewrite pmul_unfold. cbn [flat_map]. rewrite app_nil_r, !map_map. reflexivity.
+Qed.
+
+Lemma selc_spec : forall (g : rtree -> oid -> list stree) (P : rtree -> oid -> stree -> Prop) cs vs subs,
+  (forall c x a, In c cs -> (In a (g c x) <-> P c x a)) ->
+  (In subs (selc g cs vs) <-> all3 P cs vs subs).
+Proof.
+  intros g P. induction cs as [|c cs IH]; intros vs subs H.
+  - destruct vs as [|x vs]; destruct subs as [|a subs]; cbn [selc all3].
+    + split; auto. intros _. left. reflexivity.
+    + split; [intros [E|[]]; discriminate | intros []].
+    + split; intros [].
+    + split; intros [].
+  - destruct vs as [|x vs]; cbn [selc all3].
+    + destruct subs; split; intros [].
+    + destruct subs as [|a subs].
+      * split; [|intros []]. intros Hin. apply in_flat_map in Hin. destruct Hin as [a' [_ Hin]].
+        apply in_map_iff in Hin. destruct Hin as [r [E _]]. discriminate.
+      * split.
+        -- intros Hin. apply in_flat_map in Hin. destruct Hin as [a' [Ha Hin]].
+           apply in_map_iff in Hin. destruct Hin as [r [E Hr]]. inversion E; subst. split.
+           ++ apply (H c x a (or_introl eq_refl)). exact Ha.
+           ++ apply IH; auto. intros; apply H; right; assumption.
+        -- intros [Hp Hall]. apply in_flat_map. exists a. split.
+           ++ apply (H c x a (or_introl eq_refl)). exact Hp.
+           ++ apply in_map. apply IH; auto. intros; apply H; right; assumption.
+Qed.
+
+(* sels enumerates exactly the consistent selections *)
+Theorem sels_spec : forall t s pv sg, In sg (sels s t pv) <-> sel_ok s t pv sg.
+Proof.
+  induction t as [v cs IH] using rtree_ind2. intros s pv [h' subs]. cbn [sels sel_ok]. rewrite in_flat_map.
+  assert (SC : forall vs, In subs (selc (fun c x => sels s c (Some x)) cs vs) <->
+                          all3 (fun c x a => sel_ok s c (Some x) a) cs vs subs).
+  { intros vs. apply selc_spec. intros c x a Hc. rewrite Forall_forall in IH. apply IH. exact Hc. }
+  split.
+  - intros [h [Hh Hin]]. destruct (Nat.eqb (hnode h) v) eqn:E; [|destruct Hin].
+    destruct (child_verts pv h) as [vs|] eqn:Ecv; [|destruct Hin].
+    apply in_map_iff in Hin. destruct Hin as [r [Er Hr]]. inversion Er; subst.
+    split; [exact Hh|]. split; [apply Nat.eqb_eq; exact E|]. rewrite Ecv. apply SC. exact Hr.
+  - intros [Hh [Hv Hrest]]. exists h'. split; [exact Hh|].
+    rewrite (proj2 (Nat.eqb_eq _ _) Hv). destruct (child_verts pv h') as [vs|]; [|destruct Hrest].
+    apply in_map. apply SC. exact Hrest.
+Qed.
